@@ -35,13 +35,12 @@ Alloc(cfg) ==
       clobset == SeqToSet(cfg.clob)
       reads == SeqToSet(cfg.reads)
       pool1 == Without(ScratchPool(abi), clobset)
-      readbad == \E r \in reads : r \notin SeqToSet(pool1)  \* list.remove raises
-      pool2 == Without(pool1, reads)
+      pool2 == Without(pool1, reads)     \* reads that are no candidates are ignored
       unable == cfg.scratch > Len(pool2)
       scratch == SubSeq(pool2, 1, Min2(cfg.scratch, Len(pool2)))
       clobbered == clobset \cup SeqToSet(scratch)
                    \cup (IF cfg.pcs THEN CallerSaved(abi) ELSE {})
-  IN  [exc |-> IF readbad \/ unable THEN "ValueError" ELSE "",
+  IN  [exc |-> IF unable THEN "ValueError" ELSE "",
        clobbered |-> SelectSeq(AllRegs(abi), LAMBDA r : r \in clobbered),
        scratch |-> scratch, avail |-> pool2]
 
@@ -62,7 +61,8 @@ X86Gen(cfg, al) ==
       w == Slot(abi)
       ax == IF IsX64(abi) THEN "rax" ELSE "eax"
       n == Len(al.clobbered)
-      skip == IF (n > 0 \/ cfg.flags) /\ RedZone(abi) > 0 /\ cfg.leaf THEN RedZone(abi) ELSE 0
+      skip == IF (n > 0 \/ cfg.flags \/ cfg.align) /\ RedZone(abi) > 0 /\ cfg.leaf
+              THEN RedZone(abi) ELSE 0
       proRz == IF skip > 0 THEN <<ED("adjsp", -skip)>> ELSE <<>>
       epiRz == IF skip > 0 THEN <<ED("adjsp", skip)>> ELSE <<>>
       proF == IF cfg.flags THEN <<E0("pushf")>> ELSE <<>>
@@ -124,8 +124,8 @@ Predict(cfg) ==
             adj |-> g.adj, scratch |-> IF g.exc = "" THEN al.scratch ELSE <<>>]
 
 (***************************************************************************)
-(* Level A: parameters of a run, refusals the property allows, signatures  *)
-(* of the open findings.                                                   *)
+(* Level A: parameters of a run, refusals the property allows.  (No open   *)
+(* finding of C16: FX-C16-1, FX-C16-2 are fixed and excuse nothing.)       *)
 (***************************************************************************)
 \* registers the patch body may change, given the scratch registers it got
 Declared(cfg, scratch) ==
@@ -154,18 +154,8 @@ LegitRefusalC16(cfg, exc) ==
   \/ exc = "ValueError" /\ Unallocatable(cfg)
   \/ exc = "NotImplementedError" /\ cfg.abi = "mips32" /\ cfg.align
 
-\* KF-C16-1 (F5): x86-64 ELF, possibly-leaf function, align_stack and nothing
-\* else to save: the red zone is not skipped
-KfRedZone(cfg, nscratch) ==
-  /\ cfg.abi = "x64elf" /\ cfg.leaf /\ cfg.align /\ ~cfg.flags
-  /\ Len(cfg.clob) = 0 /\ nscratch = 0 /\ ~cfg.pcs
-\* KF-C16-2 (F10): a read register that is also clobbered, or that is not a
-\* scratch candidate, makes the allocation raise ValueError
-KfReadsRemove(cfg) ==
-  \E r \in SeqToSet(cfg.reads) :
-     r \in SeqToSet(cfg.clob) \/ r \notin SeqToSet(ScratchPool(cfg.abi))
-\* KF-C16-3: x86 align_stack uses `and', the flags are not declared
-\* clobbered and therefore not saved
+\* (not part of the statement of C16, not judged: x86 align_stack uses `and',
+\* flags that are not declared clobbered are not saved)
 KfAlignFlags(cfg) == IsX86(cfg.abi) /\ cfg.align /\ ~cfg.flags
 
 (***************************************************************************)
@@ -250,16 +240,16 @@ Next == Load \/ Step
 Spec == Init /\ [][Next]_vars
 
 (***************************************************************************)
-(* Invariants = the property (an open finding is exempted under its        *)
-(* narrow signature unless Strict).                                        *)
+(* Invariants = the property (an OPEN finding is exempted under its narrow  *)
+(* signature unless Strict; C16 has none, CallGen uses Ex for C17).        *)
 (***************************************************************************)
 Ex(kf) == ~Strict /\ kf
 NSc == Len(pred.scratch)
 
 Inv_TypeOK == MTypeOK
-Inv_Refusal == pred.exc # "" => (LegitRefusalC16(cfg, pred.exc) \/ Ex(KfReadsRemove(cfg)))
+Inv_Refusal == pred.exc # "" => LegitRefusalC16(cfg, pred.exc)
 Inv_NoWriteAtOrAboveOriginalSp == NoWriteAtOrAboveOriginalSp(par, St)
-Inv_NoRedZoneWriteIfLeaf == NoRedZoneWriteIfLeaf(par, St) \/ Ex(KfRedZone(cfg, NSc))
+Inv_NoRedZoneWriteIfLeaf == NoRedZoneWriteIfLeaf(par, St)
 Inv_ReadsOnlyOwnSlots == ReadsOnlyOwnSlots(par, St)
 Inv_SpAlignedOnAccess == SpAlignedOnAccess(par, St)
 Inv_RestoredDeclared == RestoredDeclared(par, St)
